@@ -144,7 +144,16 @@ def make_curve(ctx, prog, name, D, P):
     if 'posdet' in prog.tags:
         for p in range(P):
             ctx.assume(X[0, p, 0, 0] * X[0, p, 1, 1] - X[0, p, 0, 1] * X[0, p, 1, 0] > 0)
-    if 'clip' in prog.tags:
+    if 'clip-bound' in prog.tags:
+        # elements sitting exactly ON the upper / lower bound: C03 takes forward propagation as the
+        # reference there, so the reverse sweep has to use the same (closed interval) convention
+        from fractions import Fraction
+        for p in range(P):
+            ctx.assume(X[0, p, 0] == Fraction(1, 2))
+            ctx.assume(X[0, p, 1] == Fraction(-1, 2))
+            ctx.assume(X[0, p, 2] != 0.5)
+            ctx.assume(X[0, p, 2] != -0.5)
+    elif 'clip' in prog.tags:
         for idx in np.ndindex(*X[0].shape):
             ctx.assume(X[0][idx] != 0.5)
             ctx.assume(X[0][idx] != -0.5)
@@ -237,7 +246,7 @@ def h_prog(ctx, pname, D, P, route='replay'):
     ybar = O.wrap(ctx, algopy, O.Arg('utpm', Y.shape[2:]), YB)
     if not pullback_guard(ctx, algopy, cg, [ybar]):
         return
-    XB = plain(fx.xbar.data)
+    XB = plain(fx.xbar.data).copy()
     ctx.fact(XB.shape == X.shape, 'xbar shape %s == x shape %s' % (XB.shape, X.shape))
     if XB.shape != X.shape:
         return
@@ -313,6 +322,11 @@ def h_prog(ctx, pname, D, P, route='replay'):
                 lhs = lhs + np.sum(XB[j, p] * V[k - j, p])
                 rhs = rhs + np.sum(YB[j, p] * dY[k - j, p])
             ctx.eq(lhs, rhs, 'adjoint identity order %d dir %d' % (k, p))
+    # a second sweep after the same forward evaluation (row-by-row Jacobian assembly) sees the
+    # same forward values and returns the same adjoint
+    if pullback_guard(ctx, algopy, cg, [ybar], what='second pullback'):
+        ctx.eq(plain(fx.xbar.data), XB, 'second sweep with the same seed == first sweep')
+        ctx.eq(plain(fy.x.data), Y, 'forward value of the output after two sweeps')
 
 
 def bounds(tier):
